@@ -21,7 +21,7 @@ class LexError(Exception):
 
 
 class Command:
-    __slots__ = ("name", "args", "start", "end", "legacy", "line")
+    __slots__ = ("name", "args", "start", "end", "legacy", "line", "spans", "open_paren")
 
     def __init__(self, name, start, line):
         self.name = name
@@ -30,6 +30,8 @@ class Command:
         self.end = None
         self.legacy = False
         self.line = line
+        self.spans = []          # (start, end) offsets of every entry of args
+        self.open_paren = None
 
     def flat(self):
         return [raw for _, raw in self.args]
@@ -122,6 +124,7 @@ def lex(text, strict_escapes=True):
                 i += 1
             if i >= n or text[i] != "(":
                 raise LexError("stray-text" if i < n else "missing-paren", cmd.start, f"after identifier {cmd.name!r}")
+            cmd.open_paren = i
             i += 1
             depth = 1
             separated = True
@@ -143,6 +146,7 @@ def lex(text, strict_escapes=True):
                     continue
                 if c == "(":
                     cmd.args.append(("(", "("))
+                    cmd.spans.append((i, i + 1))
                     depth += 1
                     i += 1
                     separated = True
@@ -153,6 +157,7 @@ def lex(text, strict_escapes=True):
                     if depth == 0:
                         break
                     cmd.args.append((")", ")"))
+                    cmd.spans.append((i - 1, i))
                     separated = False
                     continue
                 if c == '"':
@@ -177,6 +182,7 @@ def lex(text, strict_escapes=True):
                             break
                         j += 1
                     cmd.args.append(("quoted", text[i:j]))
+                    cmd.spans.append((i, j))
                     line += text.count("\n", i, j)
                     i = j
                     # a quoted argument directly followed by more text is legacy / an error in CMake
@@ -190,6 +196,7 @@ def lex(text, strict_escapes=True):
                     if j < 0:
                         raise LexError("unterminated-bracket-argument", i)
                     cmd.args.append(("bracket", text[i:j]))
+                    cmd.spans.append((i, j))
                     line += text.count("\n", i, j)
                     i = j
                     if i < n and text[i] not in SPACE + NEWLINE + "()#":
@@ -236,6 +243,7 @@ def lex(text, strict_escapes=True):
                 if j == i:
                     raise LexError("stray-text", i, repr(text[i:i + 10]))
                 cmd.args.append(("unquoted", text[i:j]))
+                cmd.spans.append((i, j))
                 i = j
                 separated = False
             cmd.end = i
